@@ -1639,3 +1639,80 @@ def free_list_mirror_in_step(ctx, p):
                 ok = bool(sl) and '.FreeEntries.stack' in sl.fields and any(re.search(r'::last$', c) for c in sl.calls)
                 ctx.ob(p + '2 claimed-head-comes-from-the-mirror #%d' % i, 'K9-provenance', fn, 'claim_entries takes the next free-list head from the top of the mirror after the pop (the only copy of the link it may use: it has no log to read tombstones through)', ok, '', b.loc(s))
     ctx.ob(p + '9 mirror-sites', 'anchor', '-', 'head stores checked against the mirror', n >= 3, 'found %d' % n)
+
+def removal_planned_in_order(ctx, p):
+    F = ctx.F
+    # 9. inside one commit the keyed changes of a column set (Set / Reference / Dereference of root keys) and its tree removals are
+    # planned in the order they were given: a removal decides "last reference gone" from the root's count as the record under
+    # construction shows it, so a ReferenceTree given before it has to be in that record already (seed C10-node-changes-planned-
+    # before-keyed-changes) and an InsertTree of the same key given AFTER it must not be (F63: remove + insert of one tree in one
+    # transaction lost the tree). A removal carries the number of keyed changes given before it (its position).
+    wp = ctx.body('db::IndexedChangeSet::write_plan')
+    if wp:
+        POS = '@DereferenceChildren.NodeChange.3'
+        def reads_pos_here(b):
+            for blk in b.blocks:
+                for st in blk['s']:
+                    if st['k'] != 'assign':
+                        continue
+                    pls = [st['p']] + ([st['r'].get('p')] if st['r'].get('p') else []) + [op_place(a_) for a_ in st['r'].get('a', []) if op_place(a_)]
+                    for pl in pls:
+                        es = [e for e in pl[1:] if isinstance(e, str)]
+                        if any(x == '@DereferenceChildren' and y == '.NodeChange.3' for x, y in zip(es, es[1:])):
+                            return True
+            return False
+        def reads_pos(names, depth=3, seen=None):
+            seen = set() if seen is None else seen
+            for n in names:
+                cb = F.body(n)
+                if cb is None or n in seen or not (n.startswith(wp.path + '::{closure') or '{closure' in n):
+                    continue
+                seen.add(n)
+                if reads_pos_here(cb):
+                    return True
+                inner = set(st['r']['ak'][8:] for blk in cb.blocks for st in blk['s'] if st['k'] == 'assign' and st['r']['k'] == 'agg' and str(st['r'].get('ak', '')).startswith('Closure:'))
+                inner |= set(x for bi_, t_ in cb.calls() for x in core.call_names(t_))
+                if depth > 0 and reads_pos(inner, depth - 1, seen):
+                    return True
+            return False
+        def bounded(sl):
+            return '.NodeChange.3' in sl.fields or reads_pos(sl.calls)
+        planners = [n for n, pb in F.bodies.items() if n != wp.path and n.startswith('db::IndexedChangeSet::') and '{closure' not in n
+                    and lib.for_loops_over(pb, '.IndexedChangeSet.changes') and lib.sites_reaching(pb, ['column::HashColumn::write_plan'])]
+        K = {}
+        for bi, t in wp.calls():
+            if bi in wp.normal_blocks() and any(n in planners for n in call_names(t)):
+                sls = [backward_slice(wp, [op_place(a_)]) for a_ in t['a'] if op_place(a_) is not None]
+                K[bi] = any(bounded(sl) for sl in sls)
+        for l in lib.for_loops_over(wp, '.IndexedChangeSet.changes'):
+            t = wp.term(l['head'])
+            K[l['head']] = bounded(backward_slice(wp, [op_place(t['a'][0])])) if t['a'] and op_place(t['a'][0]) is not None else False
+        D = sorted(lib.sites_reaching(wp, ['column::HashColumn::get']))
+        ctx.ob(p + 'a0 plan-sites', 'anchor', wp.path, 'write_plan plans the keyed changes of the set (a loop over .changes, here or in a helper) and decides tree removals from a read of the root (HashColumn::get)',
+               len(K) >= 1 and len(D) >= 1, 'keyed planning sites %s (True = bounded by a removal position), removal decisions %s' % (sorted(K.items()), D))
+        for n, d in enumerate(D):
+            before = [k for k in K if d in wp.reaches(k) and k != d]
+            unb = [k for k in before if not K[k]]
+            dom = [k for k in before if K[k] and wp.dominates(k, d)]
+            ctx.ob(p + 'a removal-planned-where-it-was-given #%d' % n, 'K2-order', wp.path,
+                   'the keyed changes planned before a tree removal are those given before it: every keyed planning that can precede the removal is bounded by a removal position, and one such planning dominates it',
+                   not unb and bool(dom), 'unbounded planning of ALL keyed changes before the removal at %s' % [wp.loc(k) for k in unb] if unb else ('' if dom else 'no position-bounded planning dominates the removal'), wp.loc(d))
+            lib.must_pass(ctx, p + 'b rest-of-keyed-changes-planned-after-removal #%d' % n, wp, sorted(K), 'after a removal every success path plans the keyed changes that follow it', sources=[d])
+        ln = lib.for_loops_over(wp, '.IndexedChangeSet.node_changes')
+        if K and ln:
+            w = wp.find_path([0], set(l['none'] for l in ln), removed=set(K))
+            ctx.ob(p + 'b0 keyed-changes-planned', 'K1-must-pass', wp.path, 'the end of the walk over the node changes is reached only through a planning of keyed changes', w is None,
+                   '' if w is None else 'path without keyed planning: ' + lib.short_path(wp, w))
+    # the position is the number of keyed changes the set holds when the removal is added
+    n9 = 0
+    for cb_ in sorted(F.bodies.values(), key=lambda x: x.path):
+        for bi in cb_.normal_blocks():
+            for st in cb_.blocks[bi]['s']:
+                if st['k'] == 'assign' and st['r']['k'] == 'agg' and st['r']['ak'] == 'Adt:db::NodeChange::DereferenceChildren':
+                    n9 += 1
+                    ops_ = st['r']['a']
+                    sl = backward_slice(cb_, [op_place(ops_[3])]) if len(ops_) >= 4 and op_place(ops_[3]) is not None else None
+                    ok = bool(sl) and '.IndexedChangeSet.changes' in sl.fields and any(re.search(r'::len$', c) for c in sl.calls)
+                    ctx.ob(p + 'c removal-position-is-the-count-of-earlier-keyed-changes %s' % cb_.path, 'K9-provenance', cb_.path,
+                           'a DereferenceChildren is built with the length of the set\'s keyed change list at that moment', ok, '', cb_.loc(bi))
+    ctx.ob(p + 'c0 removal-constructions', 'anchor', '-', 'the places that build NodeChange::DereferenceChildren were found', n9 >= 1, 'found %d' % n9)
